@@ -557,6 +557,9 @@ func storeDomain(lines []string) []string {
 				continue
 			}
 			sc.lastEvs, sc.lastNext = evs, string(next)
+			// the caller owns the page it was handed: appending to it must not reach into the store's own log (a page that
+			// is a window of the store's slice shares its spare capacity with the events behind it)
+			_ = append(evs, &eb.StoredEvent{Offset: "junk", Type: "junk", Data: json.RawMessage(`{"id":-1}`)})
 			rs, os_ := showEvs(evs, sc.cur.padded)
 			out = append(out, fmt.Sprintf("read ok recs=%s offs=%s next=%s", rs, os_, next))
 		case "save":
